@@ -7,6 +7,8 @@ import (
 	"math/big"
 	"strconv"
 	"strings"
+	"sync"
+	"sync/atomic"
 	"time"
 
 	"github.com/btcsuite/btcd/blockchain"
@@ -136,7 +138,48 @@ func i64(s string) int64 {
 
 func b01(s string) bool { return s == "1" }
 
-func (P) Exec(line string) string {
+// Exec runs one case under a watchdog: a loop in the real code that does not terminate (e.g. the `for` of
+// calcEasiestDifficulty) must surface as a disagreement, not as a check that never finishes.
+var hangs sync.Map // op -> *int32
+
+func (p P) Exec(line string) string {
+	f := strings.Fields(line)
+	op := ""
+	if len(f) > 1 {
+		op = f[1]
+	}
+	cnt, _ := hangs.LoadOrStore(op, new(int32))
+	if atomic.LoadInt32(cnt.(*int32)) >= 3 {
+		return "hang"
+	}
+	type res struct {
+		s  string
+		pv any
+	}
+	ch := make(chan res, 1)
+	go func() {
+		defer func() {
+			if r := recover(); r != nil {
+				ch <- res{pv: r}
+			}
+		}()
+		ch <- res{s: p.exec(line)}
+	}()
+	timer := time.NewTimer(90 * time.Second)
+	defer timer.Stop()
+	select {
+	case r := <-ch:
+		if r.pv != nil {
+			panic(r.pv)
+		}
+		return r.s
+	case <-timer.C:
+		atomic.AddInt32(cnt.(*int32), 1)
+		return "hang"
+	}
+}
+
+func (P) exec(line string) string {
 	f := strings.Fields(line)
 	if len(f) < 2 || f[0] != "C09" {
 		return "bad-op"
